@@ -26,5 +26,75 @@ def attach(ctx):
     return [m]
 
 
+def huge_file(t):
+    """Scale: a source file just above 4 GiB (sparse, on the tmpfs sandbox, native filestore). The transfer is only started:
+    the Metadata PDU and the first File Data PDUs show whether the large-file PDU format, the segment length derived from
+    the maximum packet length and the offsets are right; then the sending user cancels (the EOF (cancel) covers what was
+    sent)."""
+    import os
+
+    from cfdpsim.runner import from_world
+    from cfdpsim.world import Cfg, World, pdu_hdr
+    from props.pops import Ctx
+
+    f = {"vfs": "native", "shell": "plain", "metadata_only": False, "msgs": 0, "size_sel": 2,
+         "ack_s": 100000.0, "nak_s": 100000.0, "check_s_send": 100000.0, "check_s_recv": 100000.0}
+    cfg = Cfg.draw(t, f)
+    w = World(t, cfg)
+    ctx = Ctx(w, "huge_file")
+    try:
+        size = (1 << 32) + [1000, 1, 0][t.choose(3, "bytes beyond 4 GiB")]
+        os.truncate(w.src_path, size)  # sparse: zeros
+        a = w.a
+        h = a.handlers["src"]
+        rec = w.call(a, "src", "put", arg=w.put_request_obj(None))
+        if rec.ret is not True or rec.exc is not None:
+            w.violate("C07.huge_put", f"ret={rec.ret} exc={rec.exc!r}", "")
+            return from_world(w, ctx.pop, False)
+        crc = 2 if cfg.crc else 0
+        derived = cfg.mpl - cfg.hdr_len - 8 - crc  # File Data PDU of the large format: 8-byte offset
+        want_seg = derived if cfg.seg is None else min(cfg.seg, derived)
+        nxt = 0
+        n_fd = 0
+        for _ in range(3 + t.choose(8, "huge file calls")):
+            r = w.poll(a, "src")
+            if r.exc is not None:
+                w.violate("C07.huge_exception", f"{r.exc!r}", r.exc.msg)
+                break
+            for em in r.emitted:
+                if em.pdu is None:
+                    w.violate("C07.parsable", f"kind=?? len={len(em.raw)}", "")
+                    continue
+                large = int(em.pdu.pdu_header.pdu_conf.file_flag)
+                if large != 1:
+                    w.violate("C07.large_file_flag", f"{em.kind} without the large-file flag for a file of {size} bytes", "")
+                if em.kind in ("FD", "EOF", "ACK") and len(em.raw) > cfg.mpl:
+                    w.violate("C07.max_packet_len", f"{em.kind} len={len(em.raw)} mpl={cfg.mpl} (large-file format)", "")
+                if em.kind == "MD" and em.info[1] != size:
+                    w.violate("C07.metadata_fields", f"size={em.info[1]} want={size}", "")
+                if em.kind == "FD":
+                    off, ln = em.info[1], em.info[2]
+                    n_fd += 1
+                    if off != nxt or ln != want_seg:
+                        w.violate("C07.tiling", f"off={off} expected={nxt} len={ln} want={want_seg} (large-file format)", "")
+                    head = w.src_bytes  # the sparse file keeps the few bytes the world wrote at its start, the rest reads as zeros
+                    want_body = (head[off:off + ln] + bytes(ln))[:ln] if off < len(head) else bytes(ln)
+                    if bytes(em.pdu.file_data) != want_body:
+                        w.violate("C07.file_bytes", f"off={off}", "")
+                    nxt = off + ln
+        tid = h.transaction_id
+        if tid is not None and not h.packets_ready:
+            rc = w.call(a, "src", "cancel", arg=tid)
+            eofs = [e for e in rc.emitted if e.kind == "EOF"]
+            if rc.ret is True and (not eofs or eofs[0].info[2] != nxt):
+                w.violate("C07.eof_cancel_size", f"eof={[e.info[2] for e in eofs]} file bytes sent={nxt} (large-file format)", "")
+        w.probe("C07.huge_file")
+        return from_world(w, ctx.pop, n_fd > 0)
+    finally:
+        w.close()
+
+
 def run_one(t):
+    if t.choose(16, "huge file") == 15:
+        return huge_file(t)
     return insitu.run(t, {"faultfree": 5, "bounded_faults": 4, "cancel": 2}, attach)
